@@ -462,9 +462,10 @@ pub fn partials(comps: &[Cmp], quals: &[(&str, &str)]) -> Vec<Partial> {
     for a in comps {
         for b in comps {
             for c in comps {
-                let numeric = !matches!(a, Cmp::X) && !matches!(b, Cmp::X) && !matches!(c, Cmp::X);
+                // the grammar allows a qualifier after any third component, wildcard or not
+                // (`1.2.x-beta`): npm ignores it on a wildcard partial
                 for (pre, build) in quals {
-                    if (pre.is_empty() && build.is_empty()) || numeric {
+                    {
                         out.push(Partial { c: vec![*a, *b, *c], pre: pre.to_string(), build: build.to_string() });
                     }
                 }
